@@ -15,7 +15,6 @@ import importlib.util
 import itertools
 import json
 import os
-import re
 import subprocess
 import sys
 from collections import defaultdict
@@ -74,7 +73,8 @@ ASSUMPTIONS = [
     "add_axes is exercised with one or two distinct new axes, one already-used axis, and None (must raise because "
     "outputs may not contain ':'); repeating one new axis inside a single call is not judged",
     "linear indices outside 0..N-1 are not exercised",
-    "fuzz inputs are folded onto printable ASCII, max length 64",
+    "fuzz inputs are folded onto printable ASCII, max length 64; the fuzz subprocess runs with ASLR disabled "
+    "(setarch -R) when available so that a (seed, runs, corpus) case replays exactly",
 ]
 
 ARR_NAMES = [
@@ -967,7 +967,7 @@ def body_strings(data) -> Outcome:
 
 # ---- campaign: atheris fuzzing (thorough tier only) --------------------------------------------
 FUZZ_SCRIPT = os.path.join(boot.VERIF, "fuzz", "mapspec_fuzz.py")
-FUZZ_RUNS = 250_000
+FUZZ_RUNS = 200_000
 
 
 def enum_fuzz_runs():
@@ -1047,21 +1047,21 @@ def body_fuzz(data) -> Outcome:
 # ------------------------------------------------------------------------------------------------
 def campaigns(tier):
     camps = [
-        Campaign("parse", body_parse, spec_case(), quick=4000, thorough=80000,
+        Campaign("parse", body_parse, spec_case(), quick=4000, thorough=60000,
                  describe="print with drawn whitespace -> from_string vs constructors; str/round trip; accessors"),
-        Campaign("shape", body_shape, spec_case(), quick=2500, thorough=40000,
+        Campaign("shape", body_shape, spec_case(), quick=2500, thorough=30000,
                  describe="shape()/mask reference; single-fault shape dictionaries must raise ValueError"),
-        Campaign("keys", body_keys, spec_case(), quick=2000, thorough=25000,
+        Campaign("keys", body_keys, spec_case(), quick=2000, thorough=20000,
                  describe="output_key / input_keys over every linear index; denotation on NumPy arrays"),
         Campaign("keys-exhaustive", body_keys_exhaustive, enumerate=enum_key_shapes, quick=0, thorough=0, exhaustive=True,
                  describe="output_key/input_keys/shape_to_strides for every shape of rank 0-4 with sizes 1-4"),
-        Campaign("rewrite", body_rewrite, rewrite_case(), quick=2500, thorough=40000,
+        Campaign("rewrite", body_rewrite, rewrite_case(), quick=2500, thorough=30000,
                  describe="rename (subset, swap, no match, empty) and add_axes (new, duplicate, None)"),
-        Campaign("lists", body_lists, list_case(), quick=2500, thorough=40000,
+        Campaign("lists", body_lists, list_case(), quick=2500, thorough=30000,
                  describe="validate_consistent_axes / mapspec_axes / mapspec_dimensions on chains of 1-3 specs"),
-        Campaign("malformed", body_malformed, malformed_case(), quick=4000, thorough=60000,
+        Campaign("malformed", body_malformed, malformed_case(), quick=4000, thorough=50000,
                  describe="single-mutation malformed specs through constructors and from_string"),
-        Campaign("strings", body_strings, string_case(), quick=4000, thorough=100000,
+        Campaign("strings", body_strings, string_case(), quick=4000, thorough=80000,
                  describe="token soup and edited valid strings: laws on every accepted string"),
     ]  # fmt: skip
     if tier == "thorough":
